@@ -2,7 +2,7 @@
 import random
 import common as C
 import gen as G
-import codec, wrap, targets
+import codec, wrap, targets, prune
 from present import type_name
 
 MODEL_TARGETS = ["model/De.vo", "spec/Denote.vo"]
@@ -14,11 +14,32 @@ TRUSTED_BASE = [
     "spec/{AvroValue,Encoding,Denote,Wf}.v from the Avro specification: every legal encoding (any block split, negative counts with byte sizes) as encode_e of an evalue",
     "hand-written model/De.v, Reader.v of de/deserializer/** (incl. the ignored-any fast paths and skip_bytes) tied by the correspondence run",
     "extraction (ExtrOcamlBasic) + ocaml/driver.ml; Rust harness (recording visitors, serde's real IgnoredAny)",
+    "lib/prune.py (Python): the expected value of a target that leaves fields out / ignores parts is the specification's typed value (Denote.dval_typed) with exactly those sub-terms deleted or replaced by `ignored` / `unit`; the model De.v is run on the same target and compared as well",
 ]
 ASSUMPTIONS = [
     "proved (slice mode): IgnoredAny on ANY node consumes exactly the encoding of the value, for every legal encoding, and leaves the reader in the same state as reading it (C12_skip, C12_skip_as_read); reader mode follows with C11_de (same outcome and consumed bytes for every chunking)",
     "the embedded forms are proved too: a struct target with ANY subset of the record's fields (C12_struct_lacking_fields, C12_fewer_fields_agree), ignored map values, a unit variant for a union branch, and the jump over byte-size-prefixed blocks whose contents are never inspected (C12_blocks_jump)",
 ]
+
+def sized_blocks(rng, items):
+    """the items split into blocks of which at least one is written with a negative count and its byte size"""
+    out, i = [], 0
+    forced = rng.randrange(len(items)) if items else 0
+    while i < len(items):
+        k = rng.randint(1, len(items) - i)
+        neg = 1 if i <= forced < i + k else rng.randint(0, 1)
+        out.append("(blk %d %s)" % (neg, " ".join(items[i:i + k])))
+        i += k
+    return "".join(" " + b for b in out)
+
+def schema_biased(rng, i):
+    """schema/value whose root is (by turns) anything / a union / a record / an array or map; values with random block layouts"""
+    want = [None, "union", "record", "union", ("array", "map")][i % 5]
+    for _ in range(60):
+        nodes, v = G.schema_and_value(rng)
+        if want is None or nodes[0].t == want or nodes[0].t in want:
+            return nodes, v
+    return nodes, v
 
 def run(ctx):
     rng = random.Random(ctx["seed"] * 1000003 + 12)
@@ -55,9 +76,39 @@ def run(ctx):
             t = "ignored"
             exp = "ignored"
         cases.append((w, e, t, exp, kind))
+    # what comes AFTER the ignored part is a container that is read (and then the sentinel): W {x: S, c: array<T> | map<T>, s}
+    # with c written in blocks of which at least one carries its byte size; the target lacks x (or takes it as IgnoredAny)
+    # and reads c and s. A skip that leaves anything behind (a wrong length, reader state) shows in c's items. S is biased
+    # towards unions, records holding unions, and unions of arrays / maps with sized blocks.
+    after = []      # (nodes, evalue, how-x-is-ignored)
+    for i in range(n // 2):
+        nodes, v = schema_biased(rng, i)
+        tn, _ = G.schema_and_value(rng, max_nodes=rng.choice([1, 1, 2, 4]), max_depth=rng.choice([1, 2]))
+        tg = G.ValueGen(rng, tn)
+        items = [x for x in (tg.gen(0) for _ in range(rng.randint(1, 5))) if x is not None]
+        is_map = rng.random() < 0.4
+        if is_map:
+            items = ["(%s %s)" % (C.hx("k%d" % j), x) for j, x in enumerate(items)]
+        after.append(wrap.ignored_then_container(nodes, v, tn, sized_blocks(rng, items), is_map, G.rand_int(rng, -2**63, 2**63 - 1))
+                     + (rng.choice(["unknown", "unknown", "ignored"]),))
+    for (w, e, how), s in zip(after, codec.spec_batch([(w, e) for w, e, _ in after])):
+        t = C.parse_sx(s["ttarget"])[0]
+        d = C.parse_sx(s["dtyped"])[0]
+        assert t[0] == "struct" and t[2][0] == C.hx("x")
+        m = ["struct", t[1], [prune.DROP, t[2][0]] if how == "unknown" else [t[2][0], "ignored"]] + t[3:]
+        cases.append((w, e, C.show_sx(prune.strip(m)), C.show_sx(prune.project(m, d)), "ignored-then-read-" + how))
+    # random typed targets with any subset of fields left out / parts ignored / branches as unit variants, on schemas with
+    # several fields: everything that is read must be the specification's value
+    for _ in range(n // 2):
+        nodes, v = G.schema_and_value(rng, max_nodes=rng.choice([6, 10, 16]), max_depth=rng.choice([3, 5]))
+        cases.append((nodes, v, None, None, "typed-partly-ignored"))
     sp = codec.spec_batch([(w, e) for w, e, *_ in cases])
     lines = []
-    for (w, e, t, exp, kind), s in zip(cases, sp):
+    for i, ((w, e, t, exp, kind), s) in enumerate(zip(cases, sp)):
+        if t is None:
+            pr = prune.pruned(rng, s["ttarget"], s["dtyped"]) or (s["ttarget"], s["dtyped"], None)
+            t, exp = pr[0], pr[1]
+            cases[i] = (w, e, t, exp, kind)
         mode = rng.choice(["slice", "slice", "(chunks 1)", "(chunks %d)" % rng.randint(2, 40)])
         lines.append("de %s %s %s %s" % (s["schema"], t, s["enc"], mode))
     impl, model = codec.both(lines)
@@ -78,5 +129,8 @@ def run(ctx):
             "rule": "every schema/value (all node kinds, random block layouts incl. negative counts with byte sizes) embedded as record{ignored: S, "
                     "sentinel}, array<S> then sentinel, map<S> with ignored values then sentinel, union branch S taken as a unit variant then "
                     "sentinel, and ignored as a whole; the target lacks / ignores that part; expected: the sentinel (a long at its boundaries) "
-                    "decodes and the input is consumed exactly; slice and chunked readers; model vs crate",
+                    "decodes and the input is consumed exactly; record{ignored: S, array<T> | map<T> that IS read and has byte-size prefixed "
+                    "blocks, sentinel} with S biased to unions / records of unions / unions of arrays and maps: the container read after the "
+                    "ignored part must have exactly the specification's items; random typed targets with fields left out / parts ignored / "
+                    "branches as unit variants: expected the specification's typed value with those parts removed; slice and chunked readers; model vs crate",
             "samples": samples, "violations": violations, "model_diffs": diffs, "distribution": dict(dist)}
